@@ -8,6 +8,7 @@ from typing import Dict, List, Optional, Tuple
 
 from harness.lib.core import VERIF, Ctx, lean_lock, run_driver, shrink_ops
 from harness.extract import power as x_power
+from harness.extract import power_prog as x_prog
 from harness.extract import request_schema as x_schema   # C05x's extractor, used read-only: the schematic request tree
 from harness.rigs import power as rig
 
@@ -62,7 +63,8 @@ MANIFEST = {
                  "power model; model tied by regenerated tables/shapes/inventories and a differential rig",
     "design_ref": "5/C12",
 }
-MODULES = ["PrimaiteModel.Props.C12", "PrimaiteModel.Props.C12Deep", "PrimaiteModel.Props.C12Cycle", "PrimaiteModel.Props.C12Any"]
+MODULES = ["PrimaiteModel.Props.C12", "PrimaiteModel.Props.C12Deep", "PrimaiteModel.Props.C12Cycle", "PrimaiteModel.Props.C12Any",
+           "PrimaiteModel.Props.C12Prog"]
 EXE = "drv_c12"
 TAIL = [{"op": "tick"}, {"op": "ping", "src": 1, "dst": 0}, {"op": "tick"}, {"op": "tick"}, {"op": "tick"}, {"op": "tick"},
         {"op": "ping", "src": 1, "dst": 0}, {"op": "ping", "src": 0, "dst": 1}]
@@ -153,6 +155,7 @@ def run(ctx: Ctx):
     t0 = time.time()
     with lean_lock():
         ctx.extract("Power", x_power.emit)
+        ctx.extract("PowerProg", x_prog.emit)
         ctx.extract("RequestSchema", x_schema.emit)
         ctx.prove(MODULES, exes=[EXE], clean=False, leanchecker=ctx.thorough)
     ctx.cov["rule"] = ("case = (node classes, start-up/shut-down durations, op sequence over shutdown/startup/reset requests, ticks, "
@@ -188,7 +191,9 @@ def run(ctx: Ctx):
     rng = ctx.rng.fork("power")
     all_durs = [(u, d) for u in (0, 1, 2, 3) for d in (0, 1, 2, 3)]
     depth_all = ctx.scale(3, 4)
-    for (u, d) in all_durs:
+    # quick (round 7, to pay for the layout family): {0,1,3}²; duration 2 is in the class / layout / random families and in thorough
+    pair_durs = all_durs if ctx.thorough else [(u, d) for (u, d) in all_durs if u != 2 and d != 2]
+    for (u, d) in pair_durs:
         for k, c in enumerate(rig.exhaustive_pair(depth_all, (u, d, 1, 1))):
             c["ops"] += [dict(o) for o in TAIL]
             cases.append((f"exh{depth_all}:{u},{d}:{k}", c))
@@ -212,6 +217,9 @@ def run(ctx: Ctx):
             continue  # quick: the deeper family on one host class besides computer (host-node); all host classes share HostNode's code
         for k, c in enumerate(rig.exhaustive_cls(cls, cls_depth + 1, 0, 0)):
             cases.append((f"clsexh{cls_depth + 1}:{cls}:0,0:{k}", c))
+    # --- round 7: whole power cycles for every placement of the links on the ports of a switch / router / firewall
+    for k, c in enumerate(rig.layout_cycle_cases()):
+        cases.append((f"layout:{c['nodes'][0]['cls']}:{k}", c))
     # --- dynamic cross-check of the (lexical) frame entry-point table: every class, every interface, every power state
     for k, c in enumerate(rig.entry_cases()):
         cases.append((f"entry:{c['nodes'][0]['cls']}:{k}", c))
@@ -348,7 +356,7 @@ def run(ctx: Ctx):
     ctx.notes.append("frame entry cross-check (frames handed straight to an interface): " + ", ".join(f"{k}={v}" for k, v in sorted(ent.items())))
     ctx.oblige("rig:R-node agrees on every trace", "correspondence", agree == len(cases),
                f"{len(cases) - agree} of {len(cases)} traces disagree or fail an oracle; not reproduced alone: {json.dumps(unstable)[:1500]}")
-    ctx.notes.append(f"cases={len(cases)} lines={len(lines_all)} workers={workers} exhaustive depth {depth_all} over 16 duration pairs"
+    ctx.notes.append(f"cases={len(cases)} lines={len(lines_all)} workers={workers} exhaustive depth {depth_all} over {len(pair_durs)} duration pairs"
                      + (f", depth {depth_all + 1} over {deeper}" if ctx.thorough else "")
                      + f"; class family: depth {cls_depth} over {len(cls_durs)} duration pairs (7 classes) + depth {cls_depth + 1} at (0,0) "
                      f"({7 if ctx.thorough else 5} classes)")
